@@ -793,7 +793,15 @@ func init() {
 						c.Violate(ev.Pos, "[drop-retained] a checkpoint whose id IS in the retained set is queued for destruction: its WAL file is deleted on the next Save")
 					}
 					s.A = 2
+					s.B = 1 // something was queued for destruction and is still in cl.checkpoints
 					return []pathsim.State{s}
+				}
+				if ev.Kind == pathsim.EvAssign && len(ev.Lhs) == 1 && prog.SelField(c.Info, ev.Lhs[0]) == ck && len(ev.Rhs) == 1 && prog.IdentObj(c.Info, ev.Rhs[0]) == nextVar {
+					s.B = 0
+					return []pathsim.State{s}
+				}
+				if (ev.Kind == pathsim.EvReturn || ev.Kind == pathsim.EvExit) && s.B == 1 {
+					c.Violate(ev.Pos, "[queued-but-kept] RetainOnly can return with checkpoints queued for destruction that are still in the live list: the next Save deletes the WAL of a checkpoint the list (and the job) still references")
 				}
 				return nil
 			}
